@@ -942,6 +942,87 @@ pub fn run(tier: &str) -> i32 {
 
   let sum = |i: usize| ca[i] + cb[i] + cc[i];
   let transitions = sum(C_BATCH);
+  // ---- the LCD controller inside the machine ---------------------------------------------
+  // LY / STAT / IF as the guest sees them through the bus, time delivered by
+  // MemoryAreas::run_clock_cycles (what the CPU's accounting calls) while the other devices are
+  // busy: an OAM DMA in flight and/or the timer running.  The schedule may not depend on that.
+  let mut machine_transitions = 0u64;
+  {
+    const CTX_NAME: [&str; 4] = ["idle", "oam-dma-in-flight", "timer-on", "dma+timer"];
+    let schedules: Vec<(&str, Vec<u32>)> = vec![
+      ("4-clock steps", vec![4; 456 * 3 / 4]),
+      ("one line at a time", vec![456; 160]),
+      ("640 then lines", { let mut v = vec![640u32]; v.extend(vec![456u32; 160]); v }),
+      ("8+632 then 1000s", { let mut v = vec![8u32, 632]; v.extend(vec![1000u32; 72]); v }),
+      ("whole frames", vec![70224, 70224]),
+      ("60/252 alternating", { let mut v = Vec::new(); for _ in 0..240 { v.push(60); v.push(252); } v }),
+    ];
+    let ns = schedules.len() as u64;
+    let cfg_masks: [u8; 3] = [0x00, 0x78, 0x45];
+    let total_cases = ns * 4 * cfg_masks.len() as u64 * 2;
+    let opts = PoolOpts { chunk: 2, bitmap_bits: 1 << 12, samples_per_child: 1, ..PoolOpts::default() };
+    let r = run_pool(
+      total_cases,
+      &opts,
+      |_| {
+        let mut rom = vec![0u8; 0x8000];
+        rom[0x100..0x150].copy_from_slice(&crate::world::header_bytes(0x00, 0x00, 0x00)[0x100..0x150]);
+        crate::world::flat_core(rom)
+      },
+      |core, case, ctx| {
+        let si = (case % ns) as usize;
+        let dctx = ((case / ns) % 4) as usize;
+        let mask = cfg_masks[((case / ns / 4) % cfg_masks.len() as u64) as usize];
+        let lyc: u8 = if (case / ns / 4 / cfg_masks.len() as u64) % 2 == 0 { 0 } else { 144 };
+        let (sname, sched) = &schedules[si];
+        core.memory.io = crate::devices::io::IO::new();
+        core.memory.oam_dma = None;
+        let m = &mut core.memory as *mut crate::mem::MemoryAreas;
+        let wr = |a: u16, v: u8| crate::mem::memory_write_byte(m, a, v);
+        let rd = |a: u16| crate::mem::memory_read_byte(m as *const crate::mem::MemoryAreas, a);
+        wr(0xFF40, 0x91);
+        wr(0xFF41, mask);
+        wr(0xFF45, lyc);
+        if dctx & 2 != 0 {
+          wr(0xFF06, 0x10);
+          wr(0xFF07, 0x05);
+        }
+        if dctx & 1 != 0 {
+          wr(0xFF46, 0xC1);
+        }
+        wr(0xFF0F, 0);
+        ctx.sample(|| J::obj().set("stage", J::s("in-the-machine")).set("stat_written", J::u(mask as u64)).set("lyc", J::u(lyc as u64)).set("context", J::s(CTX_NAME[dctx])).set("schedule", J::s(*sname)));
+        let mut t = T0;
+        for (bi, b) in sched.iter().enumerate() {
+          core.memory.run_clock_cycles(crate::timing::ClockCycles(*b as usize));
+          let (ev, _) = r6_events(t, *b as u64, mask, lyc);
+          t += *b as u64;
+          let (ely, _) = r6_state(t);
+          let estat = r6_stat(t, mask, lyc);
+          let ifl = rd(0xFF0F);
+          wr(0xFF0F, 0);
+          let got = (rd(0xFF44), rd(0xFF41) & 0x7f, ifl & 1 != 0, ifl & 2 != 0);
+          let want = (ely, estat, ev & E_VBLANK != 0, ev & E_STAT_ALL != 0);
+          ctx.count(C_JUDGED, 1);
+          ctx.class(0x100000 | ((dctx as u64) << 12) | ((ely as u64) << 4) | ((want.2 as u64) << 1) | want.3 as u64);
+          if got != want {
+            let field = if got.0 != want.0 { "ly" } else if got.1 != want.1 { "stat-bits" } else if got.2 != want.2 { "vblank" } else { "stat-request" };
+            ctx.violation(&format!("C14 event={} via=machine context={}", field, CTX_NAME[dctx]), || {
+              J::obj()
+                .set("case", J::obj().set("via", J::s("bus writes + MemoryAreas::run_clock_cycles")).set("stat_written", J::u(mask as u64)).set("lyc", J::u(lyc as u64)).set("context", J::s(CTX_NAME[dctx])).set("schedule", J::s(*sname)).set("batch_index", J::u(bi as u64)).set("clocks_since_power_on", J::u(t - T0)))
+                .set("expected", J::obj().set("ly", J::u(want.0 as u64)).set("stat", J::u(want.1 as u64)).set("vblank_request", J::Bool(want.2)).set("stat_request", J::Bool(want.3)))
+                .set("observed", J::obj().set("ly", J::u(got.0 as u64)).set("stat", J::u(got.1 as u64)).set("vblank_request", J::Bool(got.2)).set("stat_request", J::Bool(got.3)))
+            });
+            break;
+          }
+        }
+      },
+      |case, how| (format!("C14 via=machine crash={}", how), J::obj().set("case", J::u(case))),
+    );
+    let cm = rep.add_stage("in-the-machine", "STAT byte {00,78,45} x LYC {0,144} x device context {idle, OAM DMA in flight, timer on, both} x 6 batch schedules over 1..2 frames: registers set through the bus, time delivered by MemoryAreas::run_clock_cycles, LY / STAT / IF read through the bus after every batch", r);
+    machine_transitions += cm[C_JUDGED];
+  }
+  let transitions = transitions + machine_transitions;
   rep.evaluations = transitions;
   rep.cov("states", J::u(rep.distinct));
   rep.cov("transitions", J::u(transitions));
